@@ -24,6 +24,7 @@ from cirq.ops import (
     common_gates,
     dense_pauli_string as dps,
     gate_operation,
+    global_phase_op,
     op_tree,
     pauli_gates,
     pauli_string as ps,
@@ -361,12 +362,12 @@ class PauliStringPhasorGate(raw_types.Gate):
         return self.dense_pauli_string.on(*qubits).to_z_basis_ops()
 
     def _decompose_(self, qubits: Sequence[cirq.Qid]) -> Iterator[cirq.OP_TREE]:
-        if len(self.dense_pauli_string) <= 0:
-            return
         to_z_ops = op_tree.freeze_op_tree(self._to_z_basis_ops(qubits))
         # Qubits on which the Pauli string is the identity take no part in the rotation.
         qubits = [q for q, p in zip(qubits, self.dense_pauli_string.pauli_mask) if p]
         if not qubits:
+            if self.exponent_pos:
+                yield global_phase_op.global_phase_operation(1j ** (2 * self.exponent_pos))
             return
         any_qubit = qubits[0]
         xor_decomp = tuple(xor_nonlocal_decompose(qubits, any_qubit))
